@@ -355,13 +355,29 @@ func run(c *hc.Ctx) error {
 
 	// ---- 3b. large frames compared with the model in full (payload described by a generator shared with
 	// the driver; lengths and CRC-32s are compared instead of megabytes of hex)
+	type bigCase struct {
+		kind    string
+		l, last int
+	}
+	var bigs []bigCase
 	for i := 0; i < c.N(4, 60); i++ {
-		kind := c16c17.Kinds[i%4]
 		l := 4 * r.Range(1<<13, 1<<15) // 32–128 KiB
 		if c.Thorough() {
 			l = 4 * hc.Pick(r, r.Range(1<<16, 1<<18), r.Range(1<<18, 1<<20)) // up to 4 MiB
 		}
-		seed, last := r.Intn(256), r.Intn(256)
+		bigs = append(bigs, bigCase{c16c17.Kinds[i%4], l, r.Intn(256)})
+	}
+	if c.Thorough() { // frames at the 2^24 limit, written and read back by the model in full (≈ 3 GB, 6 s each)
+		for _, kind := range c16c17.Kinds {
+			bigs = append(bigs, bigCase{kind, maxMsg, 0}, bigCase{kind, maxMsg - 4, 3})
+			if kind == "padded" {
+				bigs = append(bigs, bigCase{kind, maxMsg, 1}, bigCase{kind, maxMsg, 2}, bigCase{kind, maxMsg, 3})
+			}
+		}
+	}
+	for _, bc := range bigs {
+		kind, l, last := bc.kind, bc.l, bc.last
+		seed := r.Intn(256)
 		p := make([]byte, l)
 		for j := range p {
 			p[j] = byte(seed + j + j/256)
